@@ -798,3 +798,82 @@ def c01(tier):
                      "token edits are applied to the canonical rendering (one blank between tokens)"]
     c.exhaustive = True
     c.finish()
+
+
+# ---------------------------------------------------------------------------
+# C02  the server never crashes or goes silent
+
+def _deep_docs(path, depths):
+    with open(path, "w") as f:
+        for d in depths:
+            docs = [
+                ("blocks", "proc main() { " + "{ " * d + "} " * d + "}"),
+                ("brackets", "proc main() { var x: int; x := " + "(" * d + "1" + ")" * d + "; }"),
+                ("unary", "proc main() { var x: int; x := " + "- " * d + "1; }"),
+                ("index", "proc main() { var a: array [2] of int; a" + "[a" * d + "[0]" + "]" * d + " := 1; }"),
+                ("ifelse", "proc main() { " + "if (1 < 2) ; else " * d + "; }"),
+                ("while", "proc main() { " + "while (1 < 2) " * d + "; }"),
+                ("arraytype", "type t = " + "array [2] of " * d + "int;"),
+                ("binary", "proc main() { var x: int; x := 1" + " + 1" * d + "; }"),
+                ("unterminated", "proc main() { " + "( " * d),
+                ("params", "proc p(" + ", ".join("a%d: int" % i for i in range(d)) + ") { }"),
+                ("comments", "// c\n" * d + "proc main() { }" + "\n// t" * d),
+                ("calls", "proc main() { " + "main(" * d + ")" * d + "; }"),
+            ]
+            for k, t in docs:
+                f.write(json.dumps({"deep": "%s/%d" % (k, d), "doc": t}) + "\n")
+
+
+def c02(tier):
+    c = Check("C02", tier)
+    c.rule = ("Documents of every generator of the specification suite (all soup texts up to length 3 over the lexical alphabet incl. "
+              "unterminated literals/comments and multi-byte characters; lexeme chains with CRLF; all programs of SplGrammar under canonical, "
+              "CRLF and non-ASCII-comment layouts; sampled single-token damages; single-fault typed programs; SplSession edit histories; "
+              "iterated Block/Bracketed/Unary/ArrayAccess/If/While/ArrayType productions nested up to 150 deep) are opened in the real server "
+              "and all 13 requests are sent at every token boundary, every gap and positions outside the text, before and after every edit. "
+              "Specified answer shape (LspServer: every request answered, in order): one response per id carrying `result` and no `error`; "
+              "the process then answers shutdown and exits 0. A dead server is re-queried one request at a time to name the killing request.")
+    vlib.build_harness()
+    exe = vlib.build_server(False)
+    q = tier == "quick"
+    sources = [("MC_Lexer", "MC_Lexer_quick.cfg", 9 if q else 1, "soup texts"),
+               ("MC_SplGrammar", "MC_SplGrammar_n12.cfg" if q else "MC_SplGrammar_n15.cfg", 3 if q else 4, "programs + damages"),
+               ("MC_SplStatic", "MC_SplStatic_faults.cfg", 60 if q else 6, "single-fault typed programs + damages")]
+    for module, cfg, stride, label in sources:
+        res = vlib.tlc(module, cfg, "c02_" + cfg.replace(".cfg", ""), timeout=6000, heap="16g")
+        c.add_tlc(res, cfg)
+        r = _srv("sweep", res["out"], "c02_" + cfg.replace(".cfg", ""), exe, ["stride=%d" % stride, "offset=%d" % (vlib.seed() % stride),
+                                                                               "damages=%d" % (2 if q else 6)], timeout=7200)
+        c.add_harness(r, label, traces=r["counters"].get("documents", 0))
+        os.remove(res["out"])
+    procs, num = (4, 15) if q else (16, 200)
+    res = vlib.tlc_sim_multi("MC_LexerChain", "Sim_LspRoundtrip.cfg", "c02_chains", procs, num, 40)
+    c.add_tlc(res, "lexeme chains (multi-byte, CRLF)")
+    r = _srv("sweep", res["out"], "c02_chains", exe)
+    c.add_harness(r, "lexeme chains", traces=r["counters"].get("documents", 0))
+    os.remove(res["out"])
+    procs, num = (4, 10) if q else (16, 120)
+    res = vlib.tlc_sim_multi("MC_SplSession", "Sim_SplSession.cfg", "c02_hist", procs, num, 3000, timeout=3000)
+    c.add_tlc(res, "edit histories (SplSession)")
+    r = _srv("sweep", res["out"], "c02_hist", exe, ["maxpos=%d" % (30 if q else 80)])
+    c.add_harness(r, "edit histories: sweep after every edit", traces=r["counters"].get("documents", 0))
+    os.remove(res["out"])
+    deep = os.path.join(vlib.OUT, "c02_deep.ndjson")
+    _deep_docs(deep, (20, 60, 150))
+    r = _srv("sweep", deep, "c02_deep", exe)
+    c.add_harness(r, "deeply nested documents (depth 20, 60, 150)", traces=r["counters"].get("documents", 0))
+    os.remove(deep)
+    # in-process: analysis of every soup text and every character edit returns without panic
+    res = vlib.tlc("MC_LexerInc", "MC_LexerInc_soup.cfg", "c02_soup", timeout=6000, coverage=False)
+    c.add_tlc(res, "MC_LexerInc_soup")
+    r = _tag_mode(_fe("soup", res["out"], "c02_soup"), "soup")
+    r["failures"] = [f for f in r["failures"] if f["what"] == "panic"]
+    r["counters"] = {k: v for k, v in r["counters"].items() if not k.startswith("class:") or k.startswith("class:panic")}
+    r["nfail"] = sum(v for k, v in r["counters"].items() if k.startswith("class:"))
+    c.add_harness(r, "in-process new/update/errors on soup (panics only)", traces=r["counters"].get("edits", 0))
+    os.remove(res["out"])
+    c.assumptions = ["termination is checked by a time bound (120 s per pipelined document session), not proved",
+                     "nesting bound 150; deep documents are harness-written iterations of SplGrammar productions",
+                     "requests are well-formed (valid params for every method)"]
+    c.exhaustive = False
+    c.finish()
